@@ -16,10 +16,19 @@ from vf import progen
 
 def main(ctx):
     cases = []
-    ctxs = list(skel.CONTEXTS) if not ctx.quick else ["stmt", "left+", "arg1", "array", "nested-call"]
+    ctxs = list(skel.CONTEXTS) if not ctx.quick else ["stmt", "left+", "arg1", "array", "nested-call", "forin-array"]
     for ident, src in skel.enumerate_skeletons(depth2=True, contexts=ctxs):
         cases.append({"id": h(["skel", ident]), "fam": "skel", "ident": list(ident), "src": src})
     n_grid = len(cases)
+    # a completion pending in try/catch that a jump out of the finally block overrides, in a function whose call is an operand of
+    # the caller's expression (also inside the caller's for-in / for-of / switch): the caller's operands must be what they were
+    for kind, a, b, c, body in skel.override_bodies():
+        g = ("function keep(v) { log('keep', v); return v; }\nfunction g() { log('g'); for (var I = 0; I < 2; I++) { log('I', I); %s log('after', I); } log('ge'); return 'N'; }\n" % body)
+        for cn, call in skel.CONTEXTS.items():
+            if ctx.quick and cn not in ("stmt", "arg1", "array", "forin-array", "forof-sum", "switch-arg") and (int(h([kind, a, b, c, cn], 4), 16) % 3):
+                continue
+            src = skel.PRELUDE + skel.CTX_PRELUDE + g + "try { " + call + " } catch (E) { log('caught', E); }\nlog('END');\n'done';"
+            cases.append({"id": h(["override", kind, a, b, c, cn]), "fam": "finally-override", "ident": [kind, a, b + ("/" + c if c else ""), cn], "src": src})
     for ident, src in progen.closure_probes():
         cases.append({"id": h(["closure", ident]), "fam": "closure", "ident": ident, "src": src})
     for ident, src in progen.completion_probes():
